@@ -78,6 +78,10 @@ def gen_cases(tier, seed, configs):
     for k in range(n):
         r = gen.rng(seed, "C07", k)
         D, H, periodic, kind, parts, bs, mode = corefam.random_tree_params(r, configs, max_n=200, big=(tier != "quick"))
+        if k % 5 == 2:
+            # the default block size (TbfBlockSizeFinder): the clauses hold for the size the tree reports
+            cases.append(corefam.make_case("c07-%d" % k, D, H, periodic, parts, bs, mode, ["build auto=1 threads=HW mode=%d" % mode, "dump structure"], {"kind": kind, "auto": True}))
+            continue
         cases.append(corefam.make_case("c07-%d" % k, D, H, periodic, parts, bs, mode, ["dump structure"], {"kind": kind}))
     return cases
 
@@ -89,7 +93,14 @@ def evaluate(res):
     if cpp != lean:
         d = [(a, b) for a, b in zip(cpp, lean) if a != b][:2]
         corr.append(("structure", "structure dumps differ: %r" % (d or [("len", len(cpp), len(lean))])))
-    orc = invariants(res.case, cpp) + [("C07:X", x) for x in core.section(res.cpp, "X ")]
+    case = res.case
+    if case["meta"].get("auto"):
+        bl, ll = [ln for ln in res.cpp if ln.startswith("B ")], [ln for ln in res.lean if ln.startswith("B ")]
+        if bl != ll:
+            corr.append(("auto-bs", "automatic block size: library %r, model %r" % (bl, ll)))
+        if bl:
+            case = dict(case, bs=int(bl[0].split()[1]))
+    orc = invariants(case, cpp) + [("C07:X", x) for x in core.section(res.cpp, "X ")]
     return corr, orc
 
 
